@@ -5,6 +5,7 @@ import (
 	"fmt"
 	"os"
 
+	"github.com/tetratelabs/wazero/verifharness/boundary"
 	"github.com/tetratelabs/wazero/verifharness/calls"
 	"github.com/tetratelabs/wazero/verifharness/cfgreplay"
 	"github.com/tetratelabs/wazero/verifharness/fcache"
@@ -40,6 +41,7 @@ var cmds = map[string]func([]string){
 	"sysdef-child":        sysdef.Child,
 	"replay-wasisafe":     wasisafe.Main,
 	"wasisafe-child":      wasisafe.Child,
+	"trace-boundary":      boundary.Main,
 	"fc-child":            fcache.Child,
 	"fc-replay":           fcache.ReplayProc,
 	"fc-gate":             fcache.ReplayGate,
